@@ -13,7 +13,7 @@ use serde_json::{json, Value};
 pub const META: Meta = Meta {
     id: "C05",
     level: "exploration",
-    rule: "Metamorphic triples: the request as given, without If-Range (R0), and without If-Range and Range (R-). Enumerated: entity ETag {absent, strong, weak} x mtime {absent, T} x If-Range in {identical, W/ toggled on either side, different tag, one character shorter / longer, upper/lower-cased, trailing space, unquoted, empty, HTTP-date before/equal/after Last-Modified in all three date formats, garbage} x Range in {single, multipart-eligible multiple, unsatisfiable, garbage, absent} x {GET, HEAD} x optional extra conditional; proptest for other tags, lengths and ranges. Oracle: identical strong tag => same status/Content-Range/Content-Length/ranges/bytes as R0; date equal to Last-Modified => as R0 or as R-; anything else => as R- (so never 206 or 416). Non-trivial = Range present and satisfiable and If-Range a match or a near-miss; distinct by fingerprint of case.",
+    rule: "Metamorphic triples: the request as given, without If-Range (R0), and without If-Range and Range (R-). Enumerated: entity ETag {absent, strong, weak, empty, Latin-1, non-UTF-8, U+FFFD, backslashes} x mtime {absent, T} x If-Range in {identical, W/ toggled on either side, different tag, one character shorter / longer, one byte changed (first / middle / last, obs-text stays obs-text), upper/lower-cased, trailing space, unquoted, empty, HTTP-date before/equal/after Last-Modified in all three date formats, garbage} x Range in {single, multipart-eligible multiple, unsatisfiable, garbage, absent} x {GET, HEAD} x optional extra conditional; proptest for other tags, lengths and ranges. Oracle: identical strong tag => same status/Content-Range/Content-Length/ranges/bytes as R0; date equal to Last-Modified => as R0 or as R-; anything else => as R- (so never 206 or 416). Non-trivial = Range present and satisfiable and If-Range a match or a near-miss; distinct by fingerprint of case.",
     assumptions: &["harness entity honours the Entity contract", "entity headers are not compared (C14 / C06 cover them)"],
 };
 
@@ -137,6 +137,7 @@ fn if_range_variants(etag: &Option<Bs>, mtime: Mtime) -> Vec<Vec<u8>> {
         let mut longer = t.clone();
         longer.insert(longer.len() - 1, b'x');
         v.push(longer);
+        v.extend(reqgen::one_byte_off(t));
         let mut shorter = t.clone();
         if shorter.len() > 3 {
             shorter.remove(shorter.len() - 2);
@@ -197,7 +198,7 @@ fn random_strategy() -> BoxedStrategy<Case> {
 pub fn run_all(cx: &Cx) -> Acc {
     let mut acc = Acc::new();
     let mut units = Vec::new();
-    for etag in [None, Some(quote(b"foo", false)), Some(quote(b"foo", true)), Some(quote(b"a, b", false)), Some(quote(b"", false))] {
+    for etag in [None, Some(quote(b"foo", false)), Some(quote(b"foo", true)), Some(quote(b"a, b", false)), Some(quote(b"", false)), Some(quote(b"v\xe9", false)), Some(quote(b"\x80\xff", false)), Some(quote(b"\xef\xbf\xbd", false)), Some(quote(b"C:\\dir\\", false))] {
         for mtime in [Mtime::None, Mtime::At(T0, 0), Mtime::At(T0, 250_000_000)] {
             units.push((etag.clone(), mtime));
         }
